@@ -1,7 +1,8 @@
 (** C04 — FContext headers survive the wire unchanged in the documented v0 layout.
     Only theorem statements, each closed by [exact] of a lemma from Proofs/. *)
-From Coq Require Import ZArith List.
-From FV Require Import Base.Res Base.Bytes Base.GoSem Model.Headers Proofs.BytesProofs Proofs.HeadersProofs.
+From Coq Require Import ZArith List Permutation.
+From FV Require Import Base.Res Base.Bytes Base.GoSem Model.Headers
+  Proofs.BytesProofs Proofs.HeadersProofs Proofs.HeadersPyProofs Proofs.HeadersMapProofs.
 Import ListNotations.
 Open Scope Z_scope.
 
@@ -14,7 +15,7 @@ Theorem c04_layout : forall l,
 Proof. exact C04_layout. Qed.
 Print Assumptions c04_layout.
 
-(** reading from a stream returns exactly the pairs written and leaves the payload untouched *)
+(** reading from a stream returns exactly the pairs written, in order, and leaves the payload untouched *)
 Theorem c04_stream_roundtrip : forall l payload,
   header_size l < 2147483648 ->
   read_header (marshal l ++ payload) = Ok (l, payload).
@@ -28,8 +29,73 @@ Theorem c04_frame_roundtrip : forall l payload,
 Proof. exact frame_roundtrip. Qed.
 Print Assumptions c04_frame_roundtrip.
 
+(** Go's random map iteration order cannot matter: two orders of the same entries decode to the same map *)
+Theorem c04_order_irrelevant : forall l l',
+  NoDup (keys l) -> Permutation l l' -> forall k, lookup k l = lookup k l'.
+Proof. exact lookup_perm. Qed.
+Print Assumptions c04_order_irrelevant.
+
+(** addHeadersToFrame: the new frame carries existing ∪ new headers (new wins), the same payload
+    and a correct outer size; [lookup] on the merged list is characterised by c04_merged_map *)
+Theorem c04_add_headers : forall a b c d l payload hs,
+  NoDup (keys l) ->
+  9 + header_size l + zlen payload < 2147483648 ->
+  9 + header_size (assign_all l hs) + zlen payload < 2147483648 ->
+  add_headers_to_frame ([a; b; c; d] ++ marshal l ++ payload) hs
+  = Ok (be32 (as_uint32 (5 + header_size (assign_all l hs) + zlen payload))
+        ++ marshal (assign_all l hs) ++ payload).
+Proof. exact add_headers_spec. Qed.
+Print Assumptions c04_add_headers.
+
+Theorem c04_merged_map : forall hs m k, NoDup (keys m) ->
+  lookup k (assign_all m hs) = match lookup k hs with Some v => Some v | None => lookup k m end.
+Proof. exact lookup_assign_all. Qed.
+Print Assumptions c04_merged_map.
+
+(** the Python runtime's codec: writes the same bytes, reads Go's bytes (stream and frame) *)
+Theorem c04_py_writes_same : forall l, header_size l < 4294967296 -> py_write l = marshal l.
+Proof. exact py_write_marshal. Qed.
+Print Assumptions c04_py_writes_same.
+
+Theorem c04_py_reads_go_stream : forall l payload,
+  5 + header_size l + zlen payload < 2147483648 ->
+  py_read (marshal l ++ payload) = Ok (l, payload).
+Proof. exact py_read_go_stream. Qed.
+Print Assumptions c04_py_reads_go_stream.
+
+Theorem c04_py_reads_go_frame : forall l payload,
+  5 + header_size l + zlen payload < 2147483648 ->
+  py_decode_from_frame (marshal l ++ payload) = Ok l.
+Proof. exact py_decode_go_frame. Qed.
+Print Assumptions c04_py_reads_go_frame.
+
+(** the readers accept nothing but what the writer produces (no silent garbage) *)
+Theorem c04_frame_accepts_only_marshal : forall b l,
+  bytes_ok b -> zlen b < 2147483648 ->
+  get_headers_from_frame b = Ok l -> exists payload, b = marshal l ++ payload.
+Proof.
+  intros b l Hok Hlen E. pose proof (frame_spec_holds b Hok Hlen) as S.
+  rewrite E in S. exact S.
+Qed.
+Print Assumptions c04_frame_accepts_only_marshal.
+
+Theorem c04_stream_accepts_only_marshal : forall b l rest,
+  bytes_ok b -> zlen b < 2147483648 ->
+  read_header b = Ok (l, rest) -> b = marshal l ++ rest.
+Proof.
+  intros b l rest Hok Hlen E. pose proof (stream_spec_holds b Hok Hlen) as S.
+  rewrite E in S. exact S.
+Qed.
+Print Assumptions c04_stream_accepts_only_marshal.
+
+(** non-vacuity: empty strings, multi-byte UTF-8, several headers, adjacent payload *)
 Example c04_nonvacuous :
   let l := [([102;111;111], [98;97;114]); ([], []); ([195;169], [240;159;146;169])] in
   read_header (marshal l ++ [1;2;3]) = Ok (l, [1;2;3])
-  /\ get_headers_from_frame (marshal l ++ [1;2;3]) = Ok l.
-Proof. vm_compute. split; reflexivity. Qed.
+  /\ get_headers_from_frame (marshal l ++ [1;2;3]) = Ok l
+  /\ py_read (marshal l ++ [1;2;3]) = Ok (l, [1;2;3])
+  /\ NoDup (keys l).
+Proof.
+  vm_compute. repeat split; try reflexivity.
+  repeat constructor; simpl; intuition discriminate.
+Qed.
